@@ -89,7 +89,9 @@ pub fn run(stim: &Value, rec: &Rec) {
                     "bundle_last" => { let mut v = pem("ca_a.pem"); v.push(b'\n'); v.extend(pem("ca_c.pem")); v }      // CA a issues no client certificate
                     "bundle_first" => { let mut v = pem("ca_c.pem"); v.push(b'\n'); v.extend(pem("ca_a.pem")); v }
                     _ => pem("ca_c.pem") } };
-            match stim["client_auth"].as_str().unwrap_or("none") { "none" => {}, mode => { cfg = if rev { cfg.client_auth_optional(mode == "optional").client_ca_root(Certificate::from_pem(ca)) } else { cfg.client_ca_root(Certificate::from_pem(ca)).client_auth_optional(mode == "optional") }; } }
+            match stim["client_auth"].as_str().unwrap_or("none") { "none" => {}, mode => { // stim.leave_default: a server that requires client certificates does not say so explicitly (required is the documented default)
+                cfg = if mode == "required" && stim["leave_default"].as_bool().unwrap_or(false) { cfg.client_ca_root(Certificate::from_pem(ca)) }
+                      else if rev { cfg.client_auth_optional(mode == "optional").client_ca_root(Certificate::from_pem(ca)) } else { cfg.client_ca_root(Certificate::from_pem(ca)).client_auth_optional(mode == "optional") }; } }
             if rev { cfg = cfg.identity(Identity::from_pem(pem("server.pem"), pem("server.key"))); }
             let incoming = tokio_stream::StreamExt::chain(tokio_stream::once(Ok::<_, std::io::Error>(s_io)), tokio_stream::pending());
             let log3 = log.clone();
